@@ -351,10 +351,7 @@ def pmap_rows(rows, nproc):
 
 
 def emitted(res):
-    rows = []
-    for ln in res.out.splitlines():
-        if ln.startswith('"{'):
-            rows.append(json.loads(json.loads(ln)))
+    rows = B.emitted_json(res.out)
     for r in rows:
         for k in ("rec", "variant", "clauses"):
             if not isinstance(r[k], dict):
@@ -378,7 +375,14 @@ def run_c15(ctx):
                 "order of writing them, up to MaxTake clauses exhaustively plus random larger commands; distinct = distinct "
                 "commands built")
     maxtake = ctx.pick(3, 4)
-    res = tlc.run("Clauses", cfg_text(maxtake), spec_dir=SPEC_DIR, tag="c15")
+    # every Close prints one finished command; the specification also prints how many there must be (counted from the table)
+    def expected(r):
+        vals = [v[1] for v in tlc.printed_values(r.out) if len(v) == 2 and v[0] == "EXPECTED"]
+        if not vals:
+            raise tlc.TlcError("Clauses did not print the expected number of commands")
+        return vals[0]
+
+    res, _ = B.run_emitting(lambda w: tlc.run("Clauses", cfg_text(maxtake), spec_dir=SPEC_DIR, tag="c15", workers=w), expected, "Clauses")
     ctx.add_model(res, "Clauses", {"MaxTake": maxtake, "Verbs": VERBS})
     if not res.ok:
         ctx.diverge(Divergence("C15", "model", res.error_name or res.error, "Clauses", "specification property violated in the model",
@@ -386,8 +390,6 @@ def run_c15(ctx):
         return
     tlc.require_coverage(res, ["TakeAny", "Close"], "Clauses")
     rows = emitted(res)
-    if len(rows) != res.coverage["Close"][1]:
-        raise tlc.TlcError("Clauses: %d finished commands printed but Close was taken %d times" % (len(rows), res.coverage["Close"][1]))
     nexh = len(rows)
     # larger commands: random subsets and orders of all clauses of a verb
     nsim = ctx.pick(100, 2500)      # behaviours per simulation worker
